@@ -542,31 +542,43 @@ def toValueMsg (pool : Pool) (r : Nat) (fs : PFields) : Option Value := toValue 
 
 /-! ### the wire layer (parameter) -/
 
+/-- `try_set_field` lets a single value into a repeated field (`is_valid_for_field` falls through
+    to `is_valid(kind)`); on the wire it is one element, so it is decoded as a one-element list. -/
+def wrapList (isList : Bool) (orig normed : PValue) : PValue :=
+  if isList then
+    match orig with
+    | .list _ => normed
+    | _ => .list (.cons normed .nil)
+  else normed
+
 mutual
-  /-- What survives `DynamicMessage::encode`: a set field that `has` says is absent (a field without
-      presence holding its default) is not written. -/
-  def normalize (pool : Pool) : PValue → PValue
+  /-- `wire = false`: the message as `has_field` / `get_field` show it — a set field that `has`
+      says is absent (a field without presence holding its default) is invisible.
+      `wire = true`: what survives `DynamicMessage::encode` + `decode` — such a field is not
+      written, and a single value in a repeated field comes back as a list. -/
+  def normalize (pool : Pool) (wire : Bool) : PValue → PValue
     | .message r fs =>
       match pool.msg r with
-      | some md => .message r (normFields pool md.fields fs)
+      | some md => .message r (normFields pool wire md.fields fs)
       | none => .message r fs
-    | .list xs => .list (normList pool xs)
-    | .map es => .map (normMap pool es)
+    | .list xs => .list (normList pool wire xs)
+    | .map es => .map (normMap pool wire es)
     | pv => pv
-  def normList (pool : Pool) : PList → PList
+  def normList (pool : Pool) (wire : Bool) : PList → PList
     | .nil => .nil
-    | .cons v vs => .cons (normalize pool v) (normList pool vs)
-  def normMap (pool : Pool) : PMap → PMap
+    | .cons v vs => .cons (normalize pool wire v) (normList pool wire vs)
+  def normMap (pool : Pool) (wire : Bool) : PMap → PMap
     | .nil => .nil
-    | .cons k v rest => .cons k (normalize pool v) (normMap pool rest)
-  def normFields (pool : Pool) (fields : List Field) : PFields → PFields
+    | .cons k v rest => .cons k (normalize pool wire v) (normMap pool wire rest)
+  def normFields (pool : Pool) (wire : Bool) (fields : List Field) : PFields → PFields
     | .nil => .nil
     | .cons n pv rest =>
       match fields.find? (fun f => f.number == n) with
       | some f =>
-        if hasValue pool f pv then .cons n (normalize pool pv) (normFields pool fields rest)
-        else normFields pool fields rest
-      | none => normFields pool fields rest
+        if hasValue pool f pv then
+          .cons n (wrapList (wire && f.isList) pv (normalize pool wire pv)) (normFields pool wire fields rest)
+        else normFields pool wire fields rest
+      | none => normFields pool wire fields rest
 end
 
 /-- The wire format of prost / prost-reflect as a parameter.  `encode` and `decode` are
@@ -576,7 +588,7 @@ structure WireCodec (pool : Pool) where
   encode : Nat → PFields → List Nat
   decode : Nat → List Nat → Option PFields
   law : ∀ (r : Nat) (fs : PFields) (md : MsgDesc), pool.msg r = some md →
-    decode r (encode r fs) = some (normFields pool md.fields fs)
+    decode r (encode r fs) = some (normFields pool true md.fields fs)
 
 /-- `encode_proto` -/
 def encodeProto (P : Prims) (pool : Pool) (W : WireCodec pool) (r : Nat) (v : Value) : Option (List Nat) :=
